@@ -24,6 +24,7 @@ CHECKS = {
                  thorough=dict(checks=8000000, shards=12, timeout=3000)),
             dict(engine="shipsim", test="TestC07Envelope", quick=dict(checks=10000, shards=2, timeout=600),
                  thorough=dict(checks=400000, shards=4, timeout=3000)),
+            dict(kind="fuzz", engine="jsonrt", test="FuzzEEBUS", tiers=("thorough",), thorough=dict(fuzztime=300)),
         ],
         assumptions=["documents with duplicate member names are not generated (no defined JSON semantics)"],
     ),
@@ -66,7 +67,9 @@ CHECKS = {
                    thorough=dict(checks=200000, shards=2, timeout=3000)),
               # mDNS level: hostile TXT maps / raw TXT items, names, hosts, address lists and ports through both entry paths
               dict(engine="mdnssim", test="TestC08Mdns", quick=dict(checks=6000, shards=2, timeout=600),
-                   thorough=dict(checks=300000, shards=2, timeout=3000))],
+                   thorough=dict(checks=300000, shards=2, timeout=3000)),
+              dict(kind="fuzz", engine="shipsim", test="FuzzShipMessage", tiers=("thorough",), thorough=dict(fuzztime=300)),
+              dict(kind="fuzz", engine="mdnssim", test="FuzzTxt", tiers=("thorough",), thorough=dict(fuzztime=180))],
     ),
     "C11": dict(
         level="exploration",
